@@ -181,6 +181,22 @@ inline std::string short_what(const char *w) {
     return s;
 }
 
+// "leak:<f1>><f2>" from a LeakSanitizer report: the two innermost library frames of the first direct leak (same format as the driver uses
+// for reports at process exit)
+inline std::string leak_key(const std::string &rep) {
+    std::istringstream in(rep); std::string line; bool inBlock = false, direct = false, haveDirect = rep.find("Direct leak of") != std::string::npos; std::vector<std::string> frames;
+    auto clean = [](std::string f) { size_t p = f.find('('); if (p != std::string::npos) f = f.substr(0, p); for (;;) { size_t a = f.rfind('<'); if (a == std::string::npos) break; size_t b = f.find('>', a); if (b == std::string::npos) break; f.erase(a, b - a + 1); } while (!f.empty() && f.back() == ' ') f.pop_back(); if (f.size() > 70) f = f.substr(f.size() - 70); return f; };
+    while (std::getline(in, line)) {
+        if (line.find("leak of") != std::string::npos) { if (inBlock && !frames.empty()) break; inBlock = true; direct = line.find("Direct") != std::string::npos; frames.clear(); continue; }
+        if (!inBlock || (haveDirect && !direct)) continue;
+        size_t h = line.find('#'), in_ = line.find(" in "); if (h == std::string::npos || in_ == std::string::npos) { if (line.find_first_not_of(" \t\r") == std::string::npos && !frames.empty()) break; continue; }
+        std::string rest = line.substr(in_ + 4); size_t sp = rest.rfind(' '); if (sp == std::string::npos) continue; std::string fn = rest.substr(0, sp), loc = rest.substr(sp + 1);
+        if (loc.find("/cola/") != std::string::npos && loc.find("/verif/") == std::string::npos && frames.size() < 2) frames.push_back(clean(fn));
+    }
+    if (frames.empty()) return "leak:harness-or-unknown";
+    return "leak:" + frames[0] + (frames.size() > 1 ? ">" + frames[1] : "");
+}
+
 // "assert:<file basename>:<expression>" from CriticalFailure::what() (line numbers
 // are left out of the key on purpose: they move when unrelated code is edited)
 inline std::string assert_key(const std::string &w) {
@@ -259,9 +275,16 @@ inline int harness_main(int argc, char **argv, const char *name, CaseFn fn) {
 #ifdef VERIF_HAVE_LSAN
         if (a.leakcheck) {
             set_stage("leakcheck");
-            if (__lsan_do_recoverable_leak_check()) {
-                r.c15.push_back({"leak", JObj().str("note", "LeakSanitizer report on stderr of this slice").done()});
+            // the report is captured in-process so that every leaking case carries its own allocation stack as signature
+            fflush(stderr); int saved = dup(2); char tmpl[] = "/dev/shm/verif-lsan-XXXXXX"; int fd = mkstemp(tmpl); if (fd >= 0) { unlink(tmpl); dup2(fd, 2); }
+            int leaked = __lsan_do_recoverable_leak_check();
+            fflush(stderr); dup2(saved, 2); close(saved);
+            if (leaked) {
+                std::string rep; if (fd >= 0) { lseek(fd, 0, SEEK_SET); char buf[4096]; ssize_t k; while ((k = read(fd, buf, sizeof buf)) > 0) rep.append(buf, (size_t)k); }
+                fputs(rep.c_str(), stderr);
+                r.c15.push_back({leak_key(rep), JObj().str("report", rep.substr(0, 3000)).done()});
             }
+            if (fd >= 0) close(fd);
         }
 #endif
         evaluations++;
